@@ -47,7 +47,10 @@ GHOST static void yield_final(void) {
       for (int i = 0; i < nf; i++)
         if (i != e->who && ready_on[i] == e->thread) {
           bypass[i]++;
-          if (bypass[i] > bound)
+          // the bound is only checkable where the ghost knows which queue holds the fiber: with >= 2 kernel
+          // threads a ready fiber may have been stolen (invisible until it runs), so N-thread cases contribute
+          // the termination check only
+          if (bypass[i] > bound && g_case.threads == 1)
             vs_violation("bypass_bound", "fiber %d was ready on kernel thread %d while %ld other fibers were switched in there (bound %ld for %d fibers)", i,
                          e->thread, bypass[i], bound, nf);
         }
